@@ -264,7 +264,7 @@ func main() {
 	mon.Main(mon.Options{
 		Property: "C14",
 		Level:    "exploration",
-		Rule: "Real signed transactions on a real TransactionPool (scripted verifier ok/pending/invalid/error per transaction, fake Publish that can fail), MaxTransactions and MaxTransactionsPerAccount drawn from 1..8. " +
+		Rule: "(liveness stream also: pools of 6-24 transactions in which the verifier turns down most waiting transactions of many senders in one promotion pass.) Real signed transactions on a real TransactionPool (scripted verifier ok/pending/invalid/error per transaction, fake Publish that can fail), MaxTransactions and MaxTransactionsPerAccount drawn from 1..8. " +
 			"seq/ilv: random sequences of add (next/gap/lower-than-all nonce, duplicate, replacement with fee -1/0/+1 around MinReplacementFeeDifference, fee priority around the pool's minimum, huge fees), remove, block applied/reverted, reorg step (ilv: with a remove/add interleaved while the verifier is asked), verdict and publish-failure changes; " +
 			"after every pool call a snapshot of allTransactions/perAccount/feePriorityQueue taken under the pool's locks is checked conjunct by conjunct and compared with Get/GetAll/GetProcessable. " +
 			"conc: 8 goroutines, rounds of mixed calls, same oracle at barriers, race detector; lin: porcupine on Add/Remove/Get per transaction ID below capacity. live/scn: full-pool liveness and directed minimal scenarios. " +
